@@ -1288,4 +1288,12 @@ theorem canonRle_dense {V : Type} [BEq V] [LawfulBEq V] (d : List V) : (canonRle
   rw [ofPairs_dense, joinPairs_dense _ 0 (expandP_unit d 0).2]
   exact (expandP_unit d 0).1
 
+/-- the rule shipped between fix 6347e85 and fix bfb8d84 converted the default to the dtype of `values`: with integer
+values and default 0.5 (values in halves: 4 = 2.0, 1 = 0.5; `cast` = truncation to an integer) the leading background
+became 0 while the trailing one stayed 0.5 -/
+theorem fromIntervalsArrOld_unsound :
+    (fromIntervalsArrOld (fun x : Int => x / 2 * 2) [1] [3] 5 [4] 1).toDense = [0, 4, 4, 1, 1] ∧
+    specDense (1 : Int) [(1, 3, 4)] 5 = [1, 4, 4, 1, 1] ∧
+    (fromIntervalsArr [1] [3] 5 [(4 : Int)] 1).toDense = [1, 4, 4, 1, 1] := by decide
+
 end C09
